@@ -717,16 +717,7 @@ def interval_overlap(a: int, b: int, x: int, y: int) -> int:
     """Returns by how much two intervals overlap
 
     assumed that a <= b and x <= y"""
-    if b <= x or a >= y:
-        return 0
-    elif x <= a <= y:
-        return min(b, y) - a
-    elif x <= b <= y:
-        return b - max(a, x)
-    elif a >= x and b <= y:
-        return b - a
-    else:
-        assert False
+    return max(0, min(b, y) - max(a, x))
 
 
 def width_aware_slice(s: str, start: int, end: int, replacement_char: str = " ") -> str:
